@@ -262,6 +262,10 @@ def compare(I, op, a, b):
         if op == 'Eq':
             return r
         return (not r) if isinstance(r, bool) else lower_bool(z3.Not(bool_term(r)))
+    if a is None or b is None:
+        I.raise_py(TypeError, "'%s' not supported between instances of '%s' and '%s'" % (
+            {'Lt': '<', 'LtE': '<=', 'Gt': '>', 'GtE': '>='}[op],
+            getattr(I.pytype(a), '__name__', '?'), getattr(I.pytype(b), '__name__', '?')))
     if is_int_like(a) and is_int_like(b):
         if not is_symbolic(a) and not is_symbolic(b):
             return {'Lt': a < b, 'LtE': a <= b, 'Gt': a > b, 'GtE': a >= b}[op]
